@@ -21,7 +21,7 @@ claim("C16", "model_checking",
       "Bounded model checking by symbolic execution of the real qs.jobs.workq / qs.qserve.QPlugin under a deterministic scheduler stub: "
       "operation kinds, arguments (worker, channel set, job, priority, timeout, clock delta) and scheduling choices are z3 integers; "
       "all histories of <= 3 operations over the full alphabet and <= 4 over the hand-off alphabet (quick; 4 / 5 thorough) from the empty queue are covered "
-      "(path tree exhausted per cube); conservation is judged by draining the queue through the public API. Counterexamples are replayed on the unmodified modules and under real gevent.",
+      "(path tree exhausted per cube); conservation is judged by draining the queue through the public API. The full alphabet includes re-adding a (killed) id. Counterexamples are replayed on the unmodified modules and under real gevent.",
       "Scheduler stub = gevent's cooperative semantics (atomic between blocking calls, set() only makes runnable, kill raises at the blocking point); logging compiled out in the symbolic run; histories longer than the bound are outside.",
       "bounded model checking via SMT-backed symbolic execution (CrossHair/z3) with symbolic schedules", "§4 C16")
 
@@ -35,17 +35,17 @@ claim("C12", "other",
       "Bounded symbolic execution of NsHandler.splitname per bundled site: free titles (<= 3 chars quick / 4 thorough over separators, bidi marks, letters with non-trivial case "
       "mappings) and structured spellings lead ':'? NAMESPACE(every local/canonical/alias name, three casings) sep ':' mid rest; oracles: idempotence, canonical "
       "prefix+remainder form, site's namespace number, spelling invariance against a reference normaliser.",
-      "Title characters are pinned by the solver and then concretised (z3's sequence theory decides strip/replace/regex too slowly): the bounded space is enumerated exhaustively by the solver, without relational generalisation; quick tier covers en+de, thorough all 12 sites.",
+      "Title characters are pinned by the solver and then concretised (z3's sequence theory decides strip/replace/regex too slowly): the bounded space is enumerated exhaustively by the solver, without relational generalisation; quick tier covers en+de in full and every namespace name of the other ten bundled sites in three casings, thorough all 12 sites in full.",
       "SMT-driven exhaustive symbolic execution (CrossHair/z3) with pinned strings, concrete replay", "§4 C12")
 claim("C17", "model_checking",
       "Bounded model checking by symbolic execution against a reference model of the queue: histories of <= 3 operations over the full alphabet (add, pull, run, finish, kill, tick, "
-      "disconnect, wait, re-add, watchdog), <= 4 over the ordering alphabet, and normal-form prefixes (1 job in any of 11 stages + 2 symbolic operations, 2 jobs + 1) with symbolic "
+      "disconnect, wait, re-add, watchdog), <= 4 over the ordering alphabet and over the qdrop alphabet (add, drop, wait, kill), and normal-form prefixes (1 job in any of 11 stages + 2 symbolic operations, 2 jobs + 1) with symbolic "
       "priorities, timeouts, clock steps and scheduling choices; every rpc_* answer and rpc_qinfo/rpc_getstats snapshot is compared with the reference.",
       "Reference model and scheduler stub in vlib/stubs/qsim.py are trusted; ordering complaints only count once the better job is later seen to come out of the queue; histories beyond the bound are outside.",
       "bounded model checking via SMT-backed symbolic execution (CrossHair/z3) against a reference model", "§4 C16-C18")
 claim("C18", "model_checking",
       "Bounded model checking by symbolic execution: histories with a stop/restart step (state copied through the real __getstate__/__setstate__ protocol) at every position, "
-      "including normal-form prefixes (job queued / handed over / pulled / finished / killed / timed out / dropped) followed by restart and symbolic operations; after the restart the "
+      "including normal-form prefixes (job queued / handed over / pulled / finished / killed / timed out / dropped) followed by restart and symbolic operations, and dedicated alphabets for re-added ids and for jobs marked by qdrop; after the restart the "
       "conservation, ordering and finality oracles of C16/C17 plus result/error/info persistence, fresh ids and immediate wait are checked.",
       "pickle is modelled by copy.deepcopy in the symbolic run (same reduce/getstate/setstate protocol); replays use real pickle protocol 2; statistics counters are not part of C18.",
       "bounded model checking via SMT-backed symbolic execution (CrossHair/z3) with a restart step at every position", "§4 C16-C18")
@@ -64,7 +64,8 @@ claim("C19", "model_checking",
       "bounded model checking via SMT-backed symbolic execution (CrossHair/z3) over job-stage combinations", "§4 C19")
 
 claim("C05", "other",
-      "Bounded symbolic execution: documents composed from a catalogue of 20 containers x 29 leaves (C1(C2(L1) L2); every C1 with C2=none plus 12 pairs quick, all pairs and a third leaf thorough) are "
+      "Bounded symbolic execution: documents composed from a catalogue of 31 containers x 39 leaves (C1(C2(L1) L2); every C1 with C2=none plus 15 pairs quick, all pairs and a third leaf thorough; well-formed and malformed blocks, content inside headings / captions / pre lines, "
+      "leaves with two nesting violations) and 'sized' leaves just above each size threshold harvested from the cleaner's source are "
       "parsed by the real parser, build_advanced_tree runs, then every cleaning pass in order; the repository's own validators run after the build and after every single pass, and the container "
       "contract after the full sequence. In the attribute cubes one node's id / class / style value are symbolic strings injected right before each attribute-sensitive pass.",
       "Fragment choices are enumerated by the solver (pinned), only the attribute strings are genuinely symbolic; tree shapes outside the fragment grammar are outside the claim; counterexamples are replayed through parse_string with the values written into the markup.",
@@ -73,7 +74,7 @@ claim("C06", "other",
       "Bounded symbolic execution of each TreeCleaner pass, called directly in cleaner_methods order (not through the catch-all): same documents as C05; for each of the passes whose code reads node "
       "attributes (computed from the current source, 22 today) the id, class and one style declaration of one node are symbolic strings, so z3 itself produces the values that switch a pass on "
       "('region_list', 'overflow:auto'); any exception, an ERROR report, or more than 4n^2+8 iterations of a fixed-point helper is a candidate, replayed through the real parser.",
-      "Document shapes limited to the fragment grammar (the crash in fix_paragraphs that the property text mentions needs a Paragraph whose previous sibling is a Section; no wikitext of the grammar produces that tree, so it is not found); "
+      "Document shapes limited to the fragment grammar (31 x 39 fragments + sized leaves; the thorough tier's all-pairs cubes found the fix_paragraphs crash the property text mentions, fixed in 9d90b39); "
       "string-heavy passes (remove_no_print_nodes, remove_absolute_positioned_node, remove_scroll_elements) do not exhaust within the quick budget and are reported INCONCLUSIVE.",
       "SMT-backed symbolic execution (CrossHair/z3) per pass with symbolic node attributes, concrete replay through the parser", "§4 C06")
 
@@ -112,15 +113,15 @@ claim("C14", "other",
 
 claim("C11", "other",
       "Bounded symbolic execution of the fetcher's data kernels: MwApi._do_request's continuation loop and result merging against a synthetic wiki whose batch cut points are z3 integers (0..5 pages, "
-      "three cuts, a server repeating its token must not cause a loop), MwApi.get_contributors (names from a list incl. bot names, symbolic anonymous counts, chunk cut, redirect), the path "
-      "Fetcher.get_edits -> _lookup_contributors -> authors store (what is stored under the plain / mapped title must be what the API reported) and split_blocks / get_block. All four cubes exhaust.",
+      "three cuts, a server repeating its token must not cause a loop; 1..3 / 4 pages whose image lists are split over consecutive batches at four symbolic cuts), MwApi.get_contributors (names from a list incl. bot names, symbolic anonymous counts, chunk cut, redirect), the path "
+      "Fetcher.get_edits -> _lookup_contributors -> authors store (what is stored under the plain / mapped title must be what the API reported) and split_blocks / get_block. All five cubes exhaust.",
       "Kernels only: which pages and images get scheduled (closure over templates), redirect resolution, revision selection, image download, missing-page tolerance, greenlet interleavings and --no-images are NOT encoded; a change there is invisible to this check.",
       "SMT-backed symbolic execution (CrossHair/z3) of data kernels with a synthetic-wiki stub", "§4 C11")
 
 claim("C10", "translation_validation",
       "The re2c-generated C++ scanner (_uscan.cc: enum, Scanner::found/bol/eol/newline, Scanner::scan with ~280 DFA states) is transpiled to Python from the current file on every run and executed symbolically: "
       "whole texts of 0..2 (quick) / 0..3 (thorough) arbitrary code points plus 18 rule-head prefixes followed by symbolic code points must satisfy the tiling law verbatim, and an inductive one-step contract "
-      "(one scan() call on a window of 3 / 5 symbolic code points from a symbolic scanner state: previous two characters, last token type, last_ebad, tablemode >= 0, rowchar, pending section marker) must re-establish the "
+      "(one scan() call on a window of 3 / 5 symbolic code points from a symbolic scanner state: previous two characters, last token type, a dropped U+EBAD between the last two tokens or directly before start, tablemode >= 0, rowchar, pending section marker) must re-establish the "
       "representation invariant with no read beyond the 32 sentinels. z3 decides every character-class comparison of the DFA, so a path stands for a class of inputs. The transpiled scanner is validated against a fresh "
       "g++ build of the same file on the string literals of the repository's scanner/parser tests and on every solver model; one-step counterexamples are lifted through constructed histories (table openings, heading start) before they count.",
       "The transpiler (vlib/re2c_transpile.py) understands exactly the C subset the file uses and refuses anything else (harness error); look-ahead beyond the window after the concrete prefixes and texts longer than the bound in the whole-text cubes are outside.",
